@@ -54,7 +54,7 @@ def make_server(oidc=True, jwt=False, user="diana", usage=None, keys=None, more_
     for cid in CLIENTS:
         ctx.cdb[cid] = {
             "client_id": cid, "client_secret": "secret_of_" + cid + "_0123456789abcdef",
-            "redirect_uris": [(f"https://{cid}.example.com/cb", None)],
+            "redirect_uris": [(f"https://{cid}.example.com/cb", None), (f"https://{cid}.example.com/cb2", None)],
             "client_salt": "salted",
             "token_endpoint_auth_method": "client_secret_post",
             "response_types_supported": ["code", "code id_token", "id_token", "token", "code token", "id_token token", "code id_token token"],
@@ -256,20 +256,35 @@ class Runner:
         clock.CLOCK.t += n
         return ["ok"]
 
-    def op_authorize(self, user, client, scope, redirect):
+    def op_authorize(self, user, client, scope, redirect, sso=None):
+        """sso: the user agent presents the session cookie of the user's previous authorization at this client (single sign-on); every
+        request has a state of its own, so no two requests are the same request"""
         self.set_user(user)
         ep = self.s.get_endpoint("authorization")
-        args = dict(client_id=client, scope=list(scope), state="st", response_type="code", nonce="n0nce")
+        self.nauth = getattr(self, "nauth", 0) + 1
+        args = dict(client_id=client, scope=list(scope), state="st%d" % self.nauth, response_type="code", nonce="n0nce")
         if redirect is not None:
             args["redirect_uri"] = redirect
         if "offline_access" in scope:
             args["prompt"] = "consent"
         args.update(self.auth_extra)
         req = AuthorizationRequest(**args)
-        pr = ep.parse_request(req.to_dict())
+        cookies = getattr(self, "cookies", None)
+        if cookies is None:
+            cookies = self.cookies = {}
+        hi = {"cookie": cookies[(user, client)]} if sso and (user, client) in cookies else None
+        pr = ep.parse_request(req.to_dict(), http_info=hi)
         if "error" in pr:
             return ["err", pr["error"]]
-        out = ep.process_request(pr)
+        out = ep.process_request(pr, http_info=hi)
+        if hi is not None and not (isinstance(out, dict) and out.get("response_args", {}).get("code")):
+            # the cookie's session is over (logout, revocation, expiry): the provider asks the user to log in again — which the user does
+            pr = ep.parse_request(req.to_dict())
+            if "error" in pr:
+                return ["err", pr["error"]]
+            out = ep.process_request(pr)
+        if isinstance(out, dict) and out.get("cookie"):
+            cookies[(user, client)] = out["cookie"]
         ra = out.get("response_args", {})
         if "error" in out or "error" in ra or "code" not in ra:
             return ["err", str(out.get("error") or ra.get("error"))]
@@ -620,6 +635,7 @@ def gen_adaptive(rng, nops, oidc=True, jwt=False, weights=None, runner=None, on_
         W.update(weights)
     kinds, ws = list(W), list(W.values())
     tokclient = {}
+    coderedir = {}
 
     def by_cls(cls):
         out = []
@@ -649,14 +665,25 @@ def gen_adaptive(rng, nops, oidc=True, jwt=False, weights=None, runner=None, on_
                 sc.insert(rng.randrange(len(sc) + 1), "openid")
             if rng.random() < 0.5 and "offline_access" not in sc:
                 sc.append("offline_access")
-            do(["authorize", u, c, sc, f"https://{c}.example.com/cb"])
+            red_ = f"https://{c}.example.com/cb" if rng.random() < 0.7 else f"https://{c}.example.com/cb2"
+            if rng.random() < 0.3 and getattr(R, "last_auth", {}).get((u, c)):
+                # the user comes back with the provider's session cookie, asking for the same thing — perhaps at the client's other redirect_uri
+                psc = R.last_auth[(u, c)]
+                r_ = do(["authorize", u, c, psc if rng.random() < 0.8 else sc, red_, "sso"])
+            else:
+                r_ = do(["authorize", u, c, sc, red_])
+            if r_[0] == "code":
+                coderedir[r_[1]] = red_
+            if not hasattr(R, "last_auth"):
+                R.last_auth = {}
+            R.last_auth[(u, c)] = ops[-1][3]
         elif k in ("redeem", "parse") and codes:
             code = rng.choice(codes[-4:] if rng.random() < 0.7 else codes)
             owner = tokclient[code]
             c = owner if rng.random() < 0.88 else rng.choice(CLIENTS)
-            red = f"https://{owner}.example.com/cb"
-            if rng.random() < 0.1:
-                red = rng.choice([None, red + "x", "https://evil.example/cb"])
+            red = coderedir.get(code, f"https://{owner}.example.com/cb")
+            if rng.random() < 0.12:
+                red = rng.choice([None, red + "x", "https://evil.example/cb", f"https://{owner}.example.com/cb", f"https://{owner}.example.com/cb2"])
             o = ["tokenParse", c, code, red]
             if c != owner and rng.random() < 0.6:
                 o.append(owner)            # authenticated (header) as c, the body names the code's owner
